@@ -1783,8 +1783,13 @@ class ContentFile(File):
 
     def _calc_hash(self) -> str:
         # Use filesystem.open() to avoid triggering a recursive hash update.
-        with self.filesystem.open(self.path, mode="rb") as infile:
-            content_hash = hash_stream(infile)
+        try:
+            with self.filesystem.open(self.path, mode="rb") as infile:
+                content_hash = hash_stream(infile)
+        except FileNotFoundError:
+            # Like File, a missing path hashes deterministically instead of raising, so that
+            # a deleted output invalidates a cached result rather than failing the run.
+            content_hash = ""
         return hash_struct([self.type_basename, self.path, content_hash])
 
 
